@@ -8,28 +8,33 @@ import (
 
 	"google.golang.org/grpc"
 	"google.golang.org/grpc/metadata"
+	"google.golang.org/grpc/status"
 	"google.golang.org/protobuf/proto"
 )
 
 // ClientServerStream combines both a grpc.ServerStream and grpc.ClientStream
 type ClientServerStream struct {
-	ctx context.Context
+	ctx    context.Context
+	parent context.Context // the client's context; when it is done the client has gone away
 
 	header  metadata.MD
 	headerM sync.Mutex    // guards closing of headerC
 	headerC chan struct{} // closed once calls to clientStream.Header should return
 
-	serverSend chan any
-	clientSend chan any
-	trailer    metadata.MD
-	closed     context.CancelFunc
-	closeErr   error
+	serverSend  chan any
+	clientSend  chan any
+	trailer     metadata.MD
+	trailerM    sync.Mutex  // guards trailer and sentTrailer
+	sentTrailer metadata.MD // what the client sees: the trailer as it was when the server ended the call
+	closed      context.CancelFunc
+	closeErr    error
 }
 
 func NewClientServerStream(ctx context.Context) *ClientServerStream {
 	newCtx, closed := context.WithCancel(ctx)
 	return &ClientServerStream{
 		ctx:        newCtx,
+		parent:     ctx,
 		closed:     closed,
 		headerC:    make(chan struct{}),
 		serverSend: make(chan any),
@@ -38,8 +43,17 @@ func NewClientServerStream(ctx context.Context) *ClientServerStream {
 }
 
 func (s *ClientServerStream) Close(err error) {
-	// headers that were set but never sent go out with the end of the call
-	_ = (&serverStream{s}).SendHeader(nil)
+	if perr := s.parent.Err(); perr != nil {
+		// the client went away before the server finished: like a real connection, the outcome is the
+		// cancellation/deadline, and no metadata reaches the client any more
+		err = status.FromContextError(perr).Err()
+	} else {
+		// headers that were set but never sent go out with the end of the call
+		_ = (&serverStream{s}).SendHeader(nil)
+		s.trailerM.Lock()
+		s.sentTrailer = s.trailer
+		s.trailerM.Unlock()
+	}
 	s.closeErr = err
 	close(s.serverSend)
 	s.closed()
@@ -82,7 +96,9 @@ func (c *clientStream) Header() (metadata.MD, error) {
 }
 
 func (c *clientStream) Trailer() metadata.MD {
-	return c.trailer
+	c.trailerM.Lock()
+	defer c.trailerM.Unlock()
+	return c.sentTrailer
 }
 
 func (c *clientStream) CloseSend() error {
@@ -97,6 +113,10 @@ func (c *clientStream) Context() context.Context {
 func (c *clientStream) SendMsg(m any) error {
 	select {
 	case <-c.ctx.Done():
+		if perr := c.parent.Err(); perr != nil {
+			// ended by the client's own context, not by the server
+			return status.FromContextError(perr).Err()
+		}
 		return c.closeErrLocked()
 	case c.clientSend <- m:
 		return nil
@@ -156,6 +176,8 @@ func (s *serverStream) SendHeader(md metadata.MD) error {
 }
 
 func (s *serverStream) SetTrailer(md metadata.MD) {
+	s.trailerM.Lock()
+	defer s.trailerM.Unlock()
 	s.trailer = metadata.Join(s.trailer, md)
 }
 
